@@ -109,6 +109,12 @@ PIPELINES = {
         "drivers": [{"name": "replay", "cmd": ["sessions", "{cases_MC_Session_sim}", "{out}"], "stateful": True, "chunk": 4000, "random": True}],
         "min_events": 500,
     },
+    "api": {
+        "variants": ["ring", "awslc"],
+        "mc": [],
+        "drivers": [{"name": "all", "cmd": ["api", "{out}", "{tier}"], "random": True}],
+        "min_events": 50,
+    },
     "csrparse": {
         "variants": ["ring"],
         "mc": [{"module": "MC_CsrParse", "workers": 4, "emits": False}],
@@ -174,6 +180,9 @@ def _p(level, pipelines, clauses, rule, ops=None, exhaustive=False, assumptions=
             "exhaustive": exhaustive, "assumptions": assumptions or CERT_ASSUME}
 
 PROPS = {
+    # pseudo property (not in MANIFEST.json): smaller public operations, specification module Api
+    "API": _p("exploration", ["api"], ["API."], "random values for SerialNumber, CertificateParams::new, insert_extended_key_usage, Zeroize, generate_simple_self_signed, conversions",
+              ops=None, exhaustive=False),
     "C02": _p("model_checking", ["cert", "sessions"], ["C02."],
               "cases = elements of the finite set Cases of spec/MC_Cert.tla (presence product + value sweeps); an event is distinct by its abstract args (parameters, key algorithms, loading entry point) without key material; every event is non-trivial in that at least the subject, validity and serial clauses are exercised",
               ops=["Cert"], exhaustive=True),
